@@ -25,6 +25,10 @@ import (
 
 var errPreimageMismatch = errors.New("revealed preimage does not match HTLC")
 
+// errNoPreimageInSpend is returned by claimCleanUp if the witness of the spend
+// of the HTLC output holds no preimage where a claim would reveal it.
+var errNoPreimageInSpend = errors.New("no preimage revealed")
+
 // htlcTimeoutResolver is a ContractResolver that's capable of resolving an
 // outgoing HTLC. The HTLC may be on our commitment transaction, or on the
 // commitment transaction of the remote party. An output on our commitment
@@ -185,7 +189,7 @@ func (h *htlcTimeoutResolver) claimCleanUp(
 
 	// If this is the remote party's commitment, then we'll be looking for
 	// them to spend using the second-level success transaction.
-	var preimageBytes []byte
+	var preimageIndex int
 	switch {
 	// For taproot channels, if the remote party has swept the HTLC, then
 	// the witness stack will look like:
@@ -193,15 +197,14 @@ func (h *htlcTimeoutResolver) claimCleanUp(
 	//   - <sender sig> <receiver sig> <preimage> <success_script>
 	//     <control_block>
 	case h.isTaproot() && h.htlcResolution.SignedTimeoutTx == nil:
-		//nolint:ll
-		preimageBytes = spendingInput.Witness[taprootRemotePreimageIndex]
+		preimageIndex = taprootRemotePreimageIndex
 
 	// The witness stack when the remote party sweeps the output on a
 	// regular channel to them looks like:
 	//
 	//  - <0> <sender sig> <recvr sig> <preimage> <witness script>
 	case !h.isTaproot() && h.htlcResolution.SignedTimeoutTx == nil:
-		preimageBytes = spendingInput.Witness[remotePreimageIndex]
+		preimageIndex = remotePreimageIndex
 
 	// If this is a taproot channel, and there's only a single witness
 	// element, then we're actually on the losing side of a breach
@@ -221,10 +224,22 @@ func (h *htlcTimeoutResolver) claimCleanUp(
 	//
 	// So we can target the same index.
 	default:
-		preimageBytes = spendingInput.Witness[localPreimageIndex]
+		preimageIndex = localPreimageIndex
 	}
 
-	preimage, err := lntypes.MakePreimage(preimageBytes)
+	// The spend doesn't have to reveal a preimage at all: if it's our own
+	// timeout spend for instance, we'd find nothing or a signature at the
+	// index. Let the caller know, so it can treat the spend as what it is.
+	witness := spendingInput.Witness
+	if preimageIndex >= len(witness) ||
+		len(witness[preimageIndex]) != lntypes.HashSize {
+
+		return fmt.Errorf("%w: spend of %v in tx=%v",
+			errNoPreimageInSpend, h.htlcResolution.ClaimOutpoint,
+			commitSpend.SpenderTxHash)
+	}
+
+	preimage, err := lntypes.MakePreimage(witness[preimageIndex])
 	if err != nil {
 		return fmt.Errorf("unable to create pre-image from witness: %w",
 			err)
